@@ -49,6 +49,11 @@ func scratchDir(prefix string) (string, error) {
 			return d, nil
 		}
 	}
+	if base := os.Getenv("VERIF_SCRATCH"); base != "" { // the run's scratch directory (core removes it in Finish)
+		if d, err := os.MkdirTemp(base, prefix); err == nil {
+			return d, nil
+		}
+	}
 	if st, err := os.Stat("/dev/shm"); err == nil && st.IsDir() {
 		if d, err := os.MkdirTemp("/dev/shm", prefix); err == nil {
 			return d, nil
@@ -59,7 +64,9 @@ func scratchDir(prefix string) (string, error) {
 
 var clockBase = time.Unix(1700000000, 0).UTC()
 
-func (fl *fileLog) now() time.Time { return clockBase.Add(time.Duration(fl.tick) * 1234567 * time.Nanosecond) }
+func (fl *fileLog) now() time.Time {
+	return clockBase.Add(time.Duration(fl.tick) * 1234567 * time.Nanosecond)
+}
 
 func newFileLog(c *core.Case, cfg walCfg) (*fileLog, error) {
 	dir, err := scratchDir("verif-c15-")
